@@ -590,8 +590,39 @@ class Ev(object):
                 if m is not None:
                     return m(self, fr, prog, fty, args, cx)
                 cgenv = self.genv_for(body, oprog, prog, type_args, genv)
+                # an argument that is a choice between constants of a small enum (`if c { BIOMASA } else { ... }`):
+                # evaluate the callee once per constant under the choice's condition, so that the callee's own
+                # matches / comparisons / filters see constants (same value, more regular terms)
+                arg_tys = cx.get("arg_tys") if isinstance(cx, dict) else None
+                for i, a in enumerate(args):
+                    small_enum = False
+                    if isinstance(a, T) and a.op == "ite" and arg_tys and i < len(arg_tys):
+                        try:
+                            small_enum = prog.fieldless_enum_variants(arg_tys[i]) is not None
+                        except Exception:
+                            small_enum = False
+                    if isinstance(a, T) and a.op == "ite" and (self._enum_choice(a, 0) or small_enum) \
+                            and getattr(self, "_split_depth", 0) < 6:
+                        c = a.a[0]
+                        self._split_depth = getattr(self, "_split_depth", 0) + 1
+                        try:
+                            a1 = list(args)
+                            a1[i] = a.a[1]
+                            a2 = list(args)
+                            a2[i] = a.a[2]
+                            return self.branch(c, lambda: self.call_fn(fr, prog, fty, a1, cx), lambda: self.call_fn(fr, prog, fty, a2, cx))
+                        finally:
+                            self._split_depth -= 1
                 return self.call_body(oprog, body, args, genv=cgenv)
         return self.models.call(self, fr, prog, fty, path, args, cx)
+
+    def _enum_choice(self, t, depth):
+        """ite tree whose leaves are constants of a fieldless enum."""
+        if depth > 4:
+            return False
+        if t.op == "ite":
+            return self._enum_choice(t.a[1], depth + 1) and self._enum_choice(t.a[2], depth + 1)
+        return t.op == "adt" and len(t.a) == 2 and depth > 0
 
     def resolve_trait_method(self, trait, name, self_key, arg_keys=None):
         """Returns (def key, genv) of the implementing method for a Self type key
@@ -749,7 +780,30 @@ class Ev(object):
             c = self.pat_const(fr, pat)
             return tm.eq(v, c)
         if k == "or":
-            conds = [self.match_pat(fr, p, v, place) for p in pat["pats"]]
+            # every alternative binds the same variables: the value bound is that of the first alternative that matches
+            conds = []
+            bound = []          # per alternative: {var: value}
+            for p in pat["pats"]:
+                before = dict(fr.vars)
+                c = self.match_pat(fr, p, v, place)
+                conds.append(c)
+                now = {}
+                for var, cell in fr.vars.items():
+                    if before.get(var) != cell:
+                        val = self.store.cells.get(cell)
+                        if val is not None and is_ref(val):
+                            val = self.read(place_of_ref(val))      # bindings of alternatives are merged by value
+                        now[var] = val
+                bound.append(now)
+            allvars = set()
+            for b in bound:
+                allvars.update(b)
+            for var in allvars:
+                merged = tm.GARBAGE
+                for c, b in reversed(list(zip(conds, bound))):
+                    if var in b and b[var] is not None:
+                        merged = b[var] if merged is tm.GARBAGE else tm.ite(c, b[var], merged)
+                fr.vars[var] = self.new_cell(merged, self.cell_names.get(fr.vars.get(var)))
             return tm.or_(*conds)
         if k == "slice":
             pre = pat["prefix"]
